@@ -682,6 +682,8 @@ func checkPerPeerGoroutines(p *core.Program, r *core.Report) {
 
 	checkConstraintsPersisted(p, r)
 	checkFragmentIdentity(p, r)
+	// a reservation that is never released (released under another key) shuts the bundle out of every later retry
+	checkDispatchExclusive(p, r)
 	checkPropertiesPersisted(p, r)
 	// the job table of the cron (pending-bundles retry, store cleaning) is registered by the Core and the routing
 	// algorithms from several goroutines and walked by the ticker: always under its mutex
